@@ -223,6 +223,107 @@ def selection_tables(ctx, clause):
     return obs, rows
 
 
+SEL_PREFIXES = {"ex": "http://example.org/"}
+RDF_TYPE_C = "<" + RDF_TYPE_IRI + ">"
+# raw selector -> ("node", IRI) | ("pattern", [subject, predicate, object], variable) | "raise"
+SELECTOR_ROWS = [
+    ("<http://example.org/n1>", ("node", "http://example.org/n1")),
+    ("ex:n1", ("node", "http://example.org/n1")),
+    ("{FOCUS a ex:C}", ("pattern", ["?f", RDF_TYPE_C, "<http://example.org/C>"], "f")),
+    ("{FOCUS ex:p _}", ("pattern", ["?f", "<http://example.org/p>", "?x"], "f")),
+    ("{_ ex:p FOCUS}", ("pattern", ["?x", "<http://example.org/p>", "?f"], "f")),
+    ("{ex:s <http://example.org/p> focus}", ("pattern", ["<http://example.org/s>", "<http://example.org/p>", "?f"], "f")),
+    ("{FOCUS   ex:p   ex:o}", ("pattern", ["?f", "<http://example.org/p>", "<http://example.org/o>"], "f")),
+    ("{FOCUS ex:p FOCUS}", "raise"),
+    ("{_ ex:p _}", "raise"),
+    ("{FOCUS ex:p}", "raise"),
+    ("{FOCUS unknown:p _}", "raise"),
+]
+
+
+def selector_table(ctx, clause):
+    """What a node selector denotes: a single node (full or prefixed IRI) or the nodes matching a {FOCUS p o} / {s p FOCUS}
+    pattern with '_' wildcards and 'a'; exactly one FOCUS.  Decision table of NodeSelectorParser.parse_node_selector over
+    representative selectors; for patterns the WHERE clause of the generated query is compared token by token."""
+    import re as _re
+    from ..abseval import Distinct
+    p = ctx.p
+    f = p.method("NodeSelectorParser", "parse_node_selector")
+    G = Distinct("sgraph")
+    obs = []
+    for raw, want in SELECTOR_ROWS:
+        ev = Evaluator(ctx, max_depth=10)
+        outs = ev.outcomes(f, {"raw_selector": raw}, {"self._prefix_namespace_dict": dict(SEL_PREFIXES), "self._sgraph": G})
+        got = None
+        if len(outs) == 1 and outs[0][0] == "raise":
+            got = "raise"
+        elif len(outs) == 1 and outs[0][0] == "return" and isinstance(outs[0][1], tuple) and outs[0][1][0] == "new":
+            _, cname, a, kw = outs[0][1]
+            kw = dict(kw)
+            if cname == "NodeSelectorNoSparql":
+                got = ("node", kw.get("target_node"))
+            elif cname == "NodeSelectorSparql" and isinstance(kw.get("sparql_query_selector"), str):
+                q = kw["sparql_query_selector"]
+                m = _re.search(r"SELECT\s+(\?\w+)\s+WHERE\s*\{(.*?)\.?\s*\}", q, _re.S)
+                if m:
+                    got = ("pattern", m.group(2).split(), kw.get("id_variable_query"))
+                    if m.group(1) != "?" + str(kw.get("id_variable_query")) or not all(("PREFIX %s: <%s>" % kv) in q for kv in SEL_PREFIXES.items()):
+                        got = ("pattern with a wrong projection or prefix header", q)
+            if kw.get("sgraph") is not G:
+                got = ("selector not bound to the graph", kw.get("sgraph"))
+        ok = got == want
+        obs.append(Ob(clause, "R-TABLE", "R-TABLE|node-selector|%s" % raw, f.loc(), ok,
+                      "selector %s -> %s" % (raw, want if want == "raise" else want[:2]) if ok else
+                      "selector %s: expected %s, code gives %s" % (raw, want, got if got is not None else outs)))
+    return obs
+
+
+def tracker_tables(ctx, clause):
+    """The instance tracker's own decisions: which triples declare an instance (mode predicates), what a declaration
+    records (node -> class appended), and how the mixed tracker integrates a secondary tracker's dictionary."""
+    from ..abseval import Distinct
+    p = ctx.p
+    obs = []
+    INST, OTHER = Distinct("instantiation-property"), Distinct("other-property")
+    C, D = Distinct("class-C"), Distinct("class-D")
+    S = {"iri": "http://e/s"}
+    for cname, targets in (("TargetClassesMode", [C]), ("AllClasesMode", None)):
+        f = p.method(cname, "is_relevant_triple")
+        for prop, obj, label in ((INST, C, "instantiation triple of a target class"), (INST, D, "instantiation triple of another class"),
+                                 (OTHER, C, "other property")):
+            ev = Evaluator(ctx)
+            env = {"self._instantiation_property": INST}
+            if targets is not None:
+                env["self._target_classes"] = list(targets)
+            outs = ev.outcomes(f, {"a_triple": (S, prop, obj)}, env)
+            want = (prop is INST) and (targets is None or obj in targets)
+            ok = outs == [("return", want)]
+            obs.append(Ob(clause, "R-TABLE", "R-TABLE|mode-predicate|%s|%s" % (cname, label), f.loc(), ok,
+                          "%s: %s -> %s" % (cname, label, "relevant" if want else "ignored") if ok else
+                          "%s: %s: expected %s, code gives %s" % (cname, label, want, outs)))
+    f = p.method("BaseStrategyMode", "annotate_class")
+    ev = Evaluator(ctx)
+    d = {"http://e/s": ["http://e/A"]}
+    outs = ev.outcomes(f, {"a_triple": ({"iri": "http://e/s"}, INST, {"iri": "http://e/B"})}, {"self._instances_dict": d})
+    got = ev.finals[0][1].get("self._instances_dict") if outs and ev.finals else None
+    ok = got == {"http://e/s": ["http://e/A", "http://e/B"]}
+    obs.append(Ob(clause, "R-TABLE", "R-TABLE|annotate-class", f.loc(), ok,
+                  "a declaration appends the class to the node's list: %s" % got if ok else
+                  "declaring http://e/s an instance of http://e/B: expected {s: [A, B]}, code leaves %s (%s)" % (got, outs)))
+    f = p.method("MixedInstanceTracker", "_integrate_dicts")
+    ev = Evaluator(ctx)
+    ref = {"n1": ["A"], "n3": ["Z"]}
+    new = {"n1": ["B"], "n2": ["A", "C"]}
+    outs = ev.outcomes(f, {"reference_dict": ref, "new_dict": new, "new_tracker": {"disambiguator_prefix": "P_"}})
+    got = ev.finals[0][0].get("reference_dict") if outs and ev.finals else None
+    want = {"n1": ["A", "B"], "n3": ["Z"], "n2": ["P_A", "C"]}
+    ok = got == want
+    obs.append(Ob(clause, "R-TABLE", "R-TABLE|integrate-dicts", f.loc(), ok,
+                  "the secondary tracker's labels are added to what the reference tracker knows; an ambiguous label gets the prefix" if ok else
+                  "integrating {n1:[B], n2:[A,C]} into {n1:[A], n3:[Z]}: expected %s, code gives %s (%s)" % (want, got, [o[0] for o in outs])))
+    return obs
+
+
 def check(ctx, tier):
     obs = []
     o_rt, n_uses, n_consts = ctx.attempt(hardcoded_rdf_type, ctx, "D-a", default=([], 0, 0))
@@ -240,6 +341,8 @@ def check(ctx, tier):
     obs += ctx.attempt(lambda c, cl: merge.check(c, cl)[0], ctx, "D-f", default=[])
     from .c16 import filter_placement          # (c16 imports this module: late import)
     obs += [o for o in ctx.attempt(filter_placement, ctx, "D-g", default=[]) if o.key.endswith("instance-pass")]
+    obs += ctx.attempt(selector_table, ctx, "D-h", default=[])
+    obs += ctx.attempt(tracker_tables, ctx, "D-i", default=[])
     exceptions.apply(obs)
     floors = [Floor("rdf:type constants in the package", n_consts, 4), Floor("uses of rdf:type constants outside defaults", n_uses, 4),
               Floor("instantiation-property call sites", n_pl, 10), Floor("selection table rows", rows, 40)]
